@@ -17,23 +17,29 @@
 
    PROVED below: codegen_correct_partial -- the same equation for every program
    of the fragment `in_fragment p = true` (Frag.v, a boolean predicate on the
-   syntax): ALL expressions except lambda and comprehensions (i.e. names, literals, unary / binary operators incl. `not in`,
-   and / or / not / conditional, tuple / list / dict displays, index, slice,
-   dot, calls with positional, named, *args and **kwargs arguments); ALL statements except load:
-   expression statements, assignment and
-   augmented assignment to names / indexes / fields / nested sequences of targets, if,
-   while, for, break, continue, pass, return, def with every kind of parameter
-   (defaults evaluated at definition, *args, **kwargs, keyword-only) whose
-   variables no nested function mentions and which is not nested inside another
-   def.  For all fuel on both sides, by simulation: induction on the evaluator's
-   fuel, the machine side is a small-step execution sequence; the built-in
+   syntax):
+   * ALL expressions except lambda and comprehensions: names, literals, unary
+     and binary operators incl. `not in`, and / or / not / conditional, tuple /
+     list / dict displays, index, slice, dot, calls with positional, named,
+     *args and **kwargs arguments;
+   * ALL statements except load: expression statements, assignment and
+     augmented assignment to names / indexes / fields / nested sequences of
+     targets, if, while, for, break, continue, pass, return, def with every
+     kind of parameter (defaults evaluated at definition, *args, **kwargs,
+     keyword-only) whose variables no nested function mentions and which is not
+     nested inside another def.
+   For all fuel on both sides, by simulation (induction on the evaluator's
+   fuel; the machine side is a small-step execution sequence).  The built-in
    library (operators on values, built-in functions, argument binding) is used
-   opaquely, i.e. the theorem holds for ANY behaviour of those primitives.
-   MISSING from the full statement: comprehensions (block-local slots), closures
-   / lambda (cells and free variables), load, and the `+`-chain literal folding of fcomp.plus (codegen_correct_partial
-   is about compile_prog p; fold_prog and the slot-numbering pass number_prog
-   are the identity on such programs, see codegen_correct_partial_folded).  Those
-   constructs are covered on every run by ties (a), (b), (c) of checks/c01.py. *)
+   opaquely: the theorem holds for ANY behaviour of those primitives.
+   MISSING from the full statement: comprehensions (block-local slots),
+   closures / lambda (cells and free variables), load, and the literal folding
+   of fcomp.plus / slot numbering (codegen_correct_partial is about
+   compile_prog p; fold_prog and number_prog are the identity on programs
+   without adjacent addable literals and comprehensions, see
+   codegen_correct_partial_folded).  Those constructs are covered on every run
+   by ties (a), (b), (c), (d) of checks/c01.py only -- and the full statement is
+   in fact FALSE for the code as it is: codegen_correct_refuted below. *)
 From Coq Require Import ZArith String List Bool.
 From SV Require Import C01.Syntax C01.Values C01.Ref C01.VM C01.Compile C01.Frag C01.Proofs C01.ProofsFuns.
 Import ListNotations.
